@@ -1,0 +1,21 @@
+//go:build verif
+
+package vgirpc
+
+import (
+	"context"
+
+	"github.com/apache/arrow-go/v18/arrow"
+)
+
+// Verification hooks (build tag "verif") for the external-location write path.
+// Add-only; nothing here is compiled into normal builds.
+
+// VerifC30Externalize runs externalizeBatchCtx and also returns the byte count
+// charged against max_externalized_response_bytes.
+func VerifC30Externalize(batch arrow.RecordBatch, meta arrow.Metadata, config *ExternalLocationConfig) (arrow.RecordBatch, arrow.Metadata, int64, error) {
+	return externalizeBatchCtx(context.Background(), batch, meta, config)
+}
+
+// VerifC30BatchBufferSize is the size the externalization threshold is compared with.
+func VerifC30BatchBufferSize(batch arrow.RecordBatch) int64 { return batchBufferSize(batch) }
